@@ -374,6 +374,22 @@ class Checker:
         r = _cmp_scalar(got, want, _tol(n, scale))
         if r:
             self.fail(f"expectation:{c.form}:{r}", dict(got=repr(got), want=repr(want), op=[L.ser_arr(a) for a in Oarrs]))
+        if tag == "op-direct" and rng.random() < 0.5:
+            # the same symbolic sum with its first term once more: another operator (successive calls on one state)
+            t0 = arg if not isinstance(arg, OpSum) else arg[0]
+            arg2 = OpSum(([arg] if not isinstance(arg, OpSum) else list(arg)) + [t0])
+            try:
+                o2 = Mpo(c.model, arg2)
+            except Exception as e:
+                self.run.count(f"rejected:mpo:{type(e).__name__}")
+                o2 = None
+            if o2 is not None:
+                want2, scale2 = dense_expect(c, L.arrays(o2))
+                got2 = c.mp.expectation(arg2)
+                self.run.count("expectation:op-direct:repeated-term")
+                r = _cmp_scalar(got2, want2, _tol(n, scale2))
+                if r:
+                    self.fail(f"expectation:{c.form}:repeated-term:{r}", dict(got=repr(got2), want=repr(want2), first_call=repr(got)))
         # bra != ket
         bra = c._state(bool(rng.random() < 0.5), other=True)
         X = bra.conj() if rng.random() < 0.7 else bra
@@ -441,6 +457,17 @@ class Checker:
                     self.run.count(f"rejected:mpo:{type(e).__name__}")
                     continue
                 ops.append(o if rng.random() < 0.7 else op)
+        if style in ("sym", "mixed") and rng.random() < 0.5:
+            # symbolic sums that differ only in how often a term is repeated (X, X+X, X+Y, X+Y+X), handed over as OpSum
+            try:
+                x_, y_ = c.sym_op(), c.sym_op()
+                fam = [OpSum([x_]), OpSum([x_, x_]), OpSum([x_, y_]), OpSum([x_, y_, x_]), OpSum([y_, x_, x_, x_])]
+                for o_ in fam:
+                    Mpo(c.model, o_)
+                ops.extend([fam[int(i)] for i in rng.permutation(len(fam))[: int(rng.integers(2, len(fam) + 1))]])
+                self.run.count("expectations:repeated-term-family")
+            except Exception as e:  # construction is C01's business
+                self.run.count(f"rejected:mpo:{type(e).__name__}")
         if not ops:
             ops = [Mpo.identity(c.model)]
         # duplicates of whole operators (same objects and equal copies), then any order
